@@ -23,7 +23,10 @@ from .common_server import norm
 
 TABLE = methods.STD_TABLE
 CTX = object()
-RAISED_CODES = [-32601, -32602, 1234, -32000]
+RAISED_CODES = [-32601, -32602, 1234, -32000, -32603]
+# methods whose handling fails before the body runs (broken view constructor / validator): the -32603 path
+INTERNAL = {'vboom': dict(kind='internal', params=[]), 'valboom': dict(kind='internal', params=[])}
+REF_TABLE = dict(TABLE, **INTERNAL)
 
 HANDLER_TABLES = {
     'none': {},
@@ -35,6 +38,11 @@ HANDLER_TABLES = {
     'replace-generic': {None: ['replace'], 'code': ['id'], 'newcode': ['id']},
     'replace-percode': {'code': ['replace', 'id'], 'newcode': ['id']},
     'replace-then-generic': {None: ['replace', 'id']},
+    # the SAME callable listed more than once (F: one function object; B: equal bound methods of one object)
+    'same-twice-generic': {None: [('id', 'F1'), ('id', 'F1')]},
+    'same-generic+percode': {None: [('id', 'F1')], 'code': [('id', 'F1')]},
+    'same-around-replace': {None: [('id', 'B1'), 'replace', ('id', 'B1')], 'newcode': [('id', 'B1')]},
+    'same-twice-percode': {'code': [('id', 'B1'), 'id', ('id', 'B1')]},
 }
 
 
@@ -43,7 +51,7 @@ def new_code(hid):
 
 
 def expand_table(name):
-    """-> dict key -> [(hid, kind)] with concrete keys"""
+    """-> dict key -> [(hid, kind)] with concrete keys; a shared handler (kind, tag) has ONE id (100 + n) wherever it is listed"""
     t = HANDLER_TABLES[name]
     out = {}
     hid = 0
@@ -52,7 +60,10 @@ def expand_table(name):
         for k in keys:
             lst = []
             for kind in kinds:
-                lst.append((hid, kind))
+                if isinstance(kind, tuple):
+                    lst.append((100 + int(kind[1][1:]), (kind[0], kind[1][0])))
+                else:
+                    lst.append((hid, kind))
                 hid += 1
             out[k] = lst
             if key == 'newcode':
@@ -60,6 +71,10 @@ def expand_table(name):
         if key == 'newcode':
             hid += len(kinds)
     return out
+
+
+def hkind(kind):
+    return kind[0] if isinstance(kind, tuple) else kind
 
 
 def build(disp, stack, table_name, events, mbs=None, shapes='list'):
@@ -104,8 +119,42 @@ def build(disp, stack, table_name, events, mbs=None, shapes='list'):
             return JsonRpcError(new_code(hid), 'replaced') if kind == 'replace' else error
         return eh
 
-    mws = [(mw_async if is_async else mw_sync)(i, k) for i, k in enumerate(stack)]
-    ehs = {k: [(eh_async if is_async else eh_sync)(hid, kind) for hid, kind in v] for k, v in table.items()}
+    shared = {}
+
+    class Holder:
+        """handlers that are bound methods: every attribute access gives a new, equal object"""
+        def __init__(self, hid, kind):
+            self.f = (eh_async if is_async else eh_sync)(hid, kind)
+
+        if is_async:
+            async def handle(self, rq, cx, error):
+                return await self.f(rq, cx, error)
+        else:
+            def handle(self, rq, cx, error):
+                return self.f(rq, cx, error)
+
+    def make_eh(hid, kind):
+        if not isinstance(kind, tuple):
+            return (eh_async if is_async else eh_sync)(hid, kind)
+        if kind[1] == 'F':
+            if hid not in shared:
+                shared[hid] = (eh_async if is_async else eh_sync)(hid, kind[0])
+            return shared[hid]
+        if hid not in shared:
+            shared[hid] = Holder(hid, kind[0])
+        return shared[hid].handle
+
+    pass_shared = []
+
+    def make_mw(i, k):
+        if shapes == 'shared-mw' and k == 'pass':
+            # one pass-through middleware object listed at several positions of the stack
+            if not pass_shared:
+                pass_shared.append((mw_async if is_async else mw_sync)('S', 'pass'))
+            return pass_shared[0]
+        return (mw_async if is_async else mw_sync)(i, k)
+    mws = [make_mw(i, k) for i, k in enumerate(stack)]
+    ehs = {k: [make_eh(hid, kind) for hid, kind in v] for k, v in table.items()}
     cls = pjrpc.server.AsyncDispatcher if is_async else pjrpc.server.Dispatcher
     kw = dict(concurrent_batch=False) if disp == 'async-seq' else {}
     if shapes == 'iterators':
@@ -116,6 +165,8 @@ def build(disp, stack, table_name, events, mbs=None, shapes='list'):
     log = []
     # the event-log oracle compares one global sequence: methods do not suspend here (interleavings are C10's business)
     methods.register(d, TABLE, log, is_async=is_async, pause=False)
+    from .c01 import register_internal_failures
+    register_internal_failures(d)
     return d, log, table
 
 
@@ -123,14 +174,14 @@ def build(disp, stack, table_name, events, mbs=None, shapes='list'):
 def ref_element(o, stack, table, events, calls):
     """o: valid request object -> answer | NOTHING"""
     def core(req):
-        body, c = ref.ref_call(req, TABLE)
+        body, c = ref.ref_call(req, REF_TABLE)
         calls.extend(c)
         if 'code' in body:
             raised = body['code']
             cur = dict(body)
             for hid, kind in table.get(None, []) + table.get(raised, []):
                 events.append(('eh', hid, req['method'], req.get('id'), cur['code'], True))
-                if kind == 'replace':
+                if hkind(kind) == 'replace':
                     cur = dict(code=new_code(hid), exact=(new_code(hid), 'replaced', ABSENT))
             body = cur
         if req.get('id') is None:
@@ -189,6 +240,8 @@ REQUESTS = {
     'invalid': {'jsonrpc': '2.0', 'id': 1}, 'empty-batch': [], 'batch-invalid-elem': [call('ok', [1]), 1],
     'oversize': [call('ok', [1], id=1), call('ok', [2], id=2)],
     'null-result': call('nop'),
+    'internal': call('valboom'), 'internal-n': call('vboom', id=None),
+    'batch-internal': [call('vboom', id=1), call('ok', [1], id=2), call('valboom', id=None)],
 }
 
 
@@ -204,6 +257,8 @@ def gen_cases(ctx):
                         yield dict(stack=stack, table=table, request=rq, disp=disp)
                         if n and n <= 2 and rq in ('ok', 'batch', 'boom-n') and table in ('none', 'generic+percode'):
                             yield dict(stack=stack, table=table, request=rq, disp=disp, shapes='iterators')
+                        if stack.count('pass') >= 2 and n <= 3 and rq in ('ok', 'batch', 'perr-n') and table in ('none', 'same-generic+percode'):
+                            yield dict(stack=stack, table=table, request=rq, disp=disp, shapes='shared-mw')
 
 
 def run_case(case, rec):
@@ -246,6 +301,8 @@ def run_once(case, rec, d, log, table, events, text, stack, tname, rq, disp, mbs
         want_answer, want_events, want_calls = dict(id=None, code=-32700, exact=None), [], []
     else:
         want_answer, want_events, want_calls = reference(REQUESTS[rq], stack, table, mbs)
+        if case.get('shapes') == 'shared-mw':
+            want_events = [(('mw', 'S') + e[2:]) if e[0] == 'mw' and stack[e[1]] == 'pass' else e for e in want_events]
     p = ref.match_answer(answer, want_answer)
     rejected = want_answer is ref.REJECT or rq == 'unparsable'
     kind = 'rejected document' if rejected else ('batch' if isinstance(REQUESTS.get(rq), list) else ('notification' if rq.endswith('-n') else 'call'))
